@@ -1197,9 +1197,9 @@ func main() {
 		}
 		return
 	}
-	nseq := run.Scale(1500, 8000)
+	nseq := run.Scale(1000, 8000)
 	nops := run.Scale(25, 60)
-	nconc := run.Scale(400, 6000)
+	nconc := run.Scale(300, 6000)
 	for _, kind := range []string{"mem", "oci", "file00", "file01", "file10", "file11"} {
 		nseq, nconc := nseq, nconc
 		if kind == "file10" || kind == "file11" {
